@@ -320,6 +320,9 @@ class MailboxData(MailboxDataInterface[Message]):
             except (KeyError, FileNotFoundError):
                 return None
         async with UidList.with_write(destination._path) as uidl:
+            if destination is self:
+                # same file, same key: the old record would keep denoting it
+                uidl.remove(uid)
             new_rec = Record(uidl.next_uid, rec.fields, new_filename)
             uidl.next_uid += 1
             uidl.set(new_rec)
